@@ -593,7 +593,14 @@ fn w16() -> impl Strategy<Value = i16> {
 
 pub fn raw_kytea() -> impl Strategy<Value = RawKytea> {
     (
-        (0u32..=3, 1u8..=5, 1u8..=5, 1u8..=4, 0u8..=8),
+        (
+            0u32..=3,
+            // (now and then a window whose double does not fit into a byte)
+            prop_oneof![12 => 1u8..=5, 1 => prop_oneof![Just(127u8), Just(128u8), Just(129u8), Just(200u8), Just(255u8)]],
+            prop_oneof![12 => 1u8..=5, 1 => prop_oneof![Just(127u8), Just(128u8), Just(130u8), Just(255u8)]],
+            1u8..=4,
+            0u8..=8,
+        ),
         // (now and then a model without any character n-gram, or without any type n-gram)
         prop_oneof![9 => vec((vec(any::<u16>(), 1..=5), vec(w16(), 12), 0u8..3), 1..=15), 1 => Just(vec![])],
         prop_oneof![9 => vec((vec(any::<u16>(), 1..=4), vec(w16(), 12), 0u8..3), 1..=10), 1 => Just(vec![])],
